@@ -1206,7 +1206,7 @@ Qed.
 
 (** compare_molrecs is compare_recursive on the normalised records *)
 Theorem molrecs_is_recursive o e c e' c' :
-  massage true e = Ok e' -> massage true c = Ok c' -> compare_molrecs o e c = compare_recursive o e' c'.
+  massage true e = Ok e' -> massage true c = Ok c' -> compare_molrecs o e c = compare_recursive (mol_opts o) e' c'.
 Proof. unfold compare_molrecs. intros -> ->. reflexivity. Qed.
 
 (** the generator version is forgiven: the version entry of provenance does not reach compare_recursive *)
